@@ -265,6 +265,10 @@ class State:
         avail = list(g.outputs) + list(g.inputs.all)
         params = list(dict.fromkeys(avail[j % len(avail)] for j in op["params"])) if avail else []
         spec = {"k": "func", "name": f"added{self.fresh}", "params": params, "defaults": {}, "outs": [f"ao{self.fresh}"]}
+        if op.get("acc"):
+            # the added node consumes its own output (an accumulator seeded by the caller): whether it is recognised as such must not
+            # depend on what the receiver has been used for before
+            spec["params"] = [f"ao{self.fresh}"] + params[:1]
         def fn(r, c):
             return r.add_nodes(make_node(c, spec, "sync"))
 
@@ -478,9 +482,9 @@ def machine(tier, ev, holder, guarded):
         def entry(self, g, n):
             self._do({"op": "entry", "g": g, "n": n})
 
-        @rule(g=_idx, params=st.lists(st.integers(0, 9), max_size=2))
-        def add_nodes(self, g, params):
-            self._do({"op": "add_nodes", "g": g, "params": params})
+        @rule(g=_idx, params=st.lists(st.integers(0, 9), max_size=2), acc=st.sampled_from([False, False, True]))
+        def add_nodes(self, g, params, acc):
+            self._do({"op": "add_nodes", "g": g, "params": params, "acc": acc})
 
         @rule(g=_idx)
         def as_node(self, g):
